@@ -229,3 +229,172 @@ Definition can_create (t : ctab) (rules : list rule) (q : req) : bool :=
       negb (Nat.eqb (length hm) 0)
     end
   end.
+
+(* ==== expr_parser_node.go: the MatchNode trie =================================
+   A node holds a run of sort orders, its children keyed by the first sort order of
+   the child's run (a Go map: at most one child per key; looked up by key), and the
+   data of the rule that ends exactly at the end of the run (nil if none). *)
+Inductive node := Node (so : list Z) (ch : list (Z * node)) (d : option N).
+Definition n_so (n : node) : list Z := match n with Node so _ _ => so end.
+Definition n_ch (n : node) : list (Z * node) := match n with Node _ ch _ => ch end.
+Definition n_d (n : node) : option N := match n with Node _ _ d => d end.
+
+(* Access.reinit *)
+Definition root0 : node := Node [t_mark] [] None.
+
+(* longest common prefix, and what is left of either list *)
+Fixpoint split_common (a b : list Z) : list Z * list Z * list Z :=
+  match a, b with
+  | x :: a', y :: b' =>
+    if x =? y then let '(p, ra, rb) := split_common a' b' in (x :: p, ra, rb) else ([], a, b)
+  | _, _ => ([], a, b)
+  end.
+
+Fixpoint find_child (k : Z) (ch : list (Z * node)) : option node :=
+  match ch with
+  | [] => None
+  | (k', c) :: l => if k' =? k then Some c else find_child k l
+  end.
+
+(* replace the first child with key [x] by [f] of it (None: no such child) *)
+Section UpdFirst.
+  Variable x : Z.
+  Variable f : node -> node.
+  Fixpoint upd_first (l : list (Z * node)) : option (list (Z * node)) :=
+    match l with
+    | [] => None
+    | (k, c) :: l' =>
+      if k =? x then Some ((k, f c) :: l')
+      else match upd_first l' with Some l'' => Some ((k, c) :: l'') | None => None end
+    end.
+End UpdFirst.
+
+(* MatchNode.Add: walk the common prefix inside a node; at its end either set the data
+   (exact end), descend into / create the child for the next sort order, or split the
+   node (the new expression ends inside the run, or diverges inside it). *)
+Fixpoint add_node (n : node) (toks : list Z) (dat : N) {struct n} : node :=
+  match n with
+  | Node so ch d =>
+    match split_common so toks with
+    | (_, [], []) => Node so ch (Some dat)
+    | (_, [], x :: r) =>
+      match upd_first x (fun c => add_node c (x :: r) dat) ch with
+      | Some ch' => Node so ch' d
+      | None => Node so (ch ++ [(x, Node (x :: r) [] (Some dat))]) d
+      end
+    | (pre, y :: rm, []) => Node pre [(y, Node (y :: rm) ch d)] (Some dat)
+    | (pre, y :: rm, x :: r) => Node pre [(y, Node (y :: rm) ch d); (x, Node (x :: r) [] (Some dat))] None
+    end
+  end.
+
+(* MatchNode.Remove.  The flag tells the caller (the parent in the walk) what happened:
+   nothing found, done, or "this node is now an empty leaf: delete it from your map"
+   (after which the parent, if it is left with one child and no data, absorbs that child). *)
+Inductive rflag := RNotFound | RDone | RDelete.
+
+(* apply [f] to the first child with key [x]; drop that child if [f] answers RDelete *)
+Section RemFirst.
+  Variable x : Z.
+  Variable f : node -> node * rflag.
+  Fixpoint rem_first (l : list (Z * node)) : option (list (Z * node) * rflag) :=
+    match l with
+    | [] => None
+    | (k, c) :: l' =>
+      if k =? x then
+        Some (match snd (f c) with RDelete => l' | _ => (k, fst (f c)) :: l' end, snd (f c))
+      else match rem_first l' with Some (l'', fl) => Some ((k, c) :: l'', fl) | None => None end
+    end.
+End RemFirst.
+
+Fixpoint rem_node (n : node) (toks : list Z) {struct n} : node * rflag :=
+  match n with
+  | Node so ch d =>
+    match split_common so toks with
+    | (_, [], []) =>
+      match ch with
+      | [] => (Node so [] None, RDelete)
+      | [(_, Node cso cch cd)] => (Node (so ++ cso) cch cd, RDone)
+      | _ => (Node so ch None, RDone)
+      end
+    | (_, [], x :: r) =>
+      match rem_first x (fun c => rem_node c (x :: r)) ch with
+      | None => (n, RNotFound)
+      | Some (_, RNotFound) => (n, RNotFound)
+      | Some (ch', RDone) => (Node so ch' d, RDone)
+      | Some (ch', RDelete) =>
+        match ch', d with
+        | [(_, Node cso cch cd)], None => (Node (so ++ cso) cch cd, RDone)
+        | _, _ => (Node so ch' d, RDone)
+        end
+      end
+    | _ => (n, RNotFound)
+    end
+  end.
+
+(* at the root there is no parent: an emptied root is reset to the lone column marker *)
+Definition rem_root (n : node) (toks : list Z) : node :=
+  match rem_node n toks with
+  | (_, RDelete) => root0
+  | (n', _) => n'
+  end.
+
+(* processMatch *)
+Definition pmatch (st : node * N) (x : Z) : list (node * N) :=
+  match st with
+  | (Node so ch d, n) =>
+    match so with
+    | [] => []                                  (* index out of range in Go; not reachable: children's runs are non-empty *)
+    | t :: r =>
+      if t =? t_one then (if x <? t_one then [] else [(Node r ch d, n + 1)%N])
+      else if t =? t_any then
+        (match r with
+         | y :: r' => if y =? x then [(Node r' ch d, n + 2)%N] else []
+         | [] => match find_child x ch with
+                 | Some (Node cso cch cd) => [(Node (tl cso) cch cd, n + 2)%N]
+                 | None => []
+                 end
+         end) ++ (if x =? t_mark then [] else [st])
+      else if x =? t then [(Node r ch d, n + 1)%N] else []
+    end
+  end.
+
+(* one input sort order applied to one state of MatchNode.Match *)
+Definition nstep (st : node * N) (x : Z) : list (node * N) :=
+  match st with
+  | (Node so ch d, n) =>
+    match so with
+    | [] =>
+      (match find_child t_one ch with Some c => pmatch (c, n) x | None => [] end)
+      ++ (match find_child t_any ch with Some c => pmatch (c, n) x | None => [] end)
+      ++ (match find_child x ch with Some c => pmatch (c, n) x | None => [] end)
+    | _ :: _ => pmatch st x
+    end
+  end.
+
+Definition nrun (sts : list (node * N)) (inp : list Z) : list (node * N) :=
+  fold_left (fun sts x => flat_map (fun st => nstep st x) sts) inp sts.
+
+(* the final loop: only a state's OWN data is reported, when its run is used up or is a
+   lone "%"; a "%" that starts a CHILD of a used-up node is not looked at *)
+Definition nresults (sts : list (node * N)) : list (N * N)%type :=
+  flat_map (fun st => match st with
+                      | (Node so ch (Some p), n) =>
+                        match so with
+                        | [] => [(p, n)]
+                        | [t] => if t =? t_any then [(p, (n + 1)%N)] else []
+                        | _ => []
+                        end
+                      | _ => []
+                      end) sts.
+
+Definition trie_match (root : node) (inp : list Z) : list (N * N)%type := nresults (nrun [(root, 0%N)] inp).
+
+(* Access.Insert / Delete on the trie, and Access.Match through it *)
+Definition trie_apply (t : ctab) (ops : list (bool * rule)%type) (root : node) : node :=
+  fold_left (fun (tr : node) (op : bool * rule) =>
+               let r := norm_rule t (snd op) in
+               if fst op then add_node tr (rule_toks t r) (r_perm r) else rem_root tr (rule_toks t r)) ops root.
+
+Definition trie_access_match (t : ctab) (root : node) (q : req) : bool * N :=
+  let rs := trie_match root (req_toks t q) in
+  (negb (Nat.eqb (length rs) 0), expand_perms (fst (longest_loop rs))).
